@@ -97,6 +97,7 @@ type LogicalRequest struct {
 	RawQuery   string
 	Headers    []HeaderKV // may repeat names
 	Body       []byte
+	Chunked    bool   // send the body with chunked transfer encoding (HTTP entry points only)
 	RemoteAddr string // ip:port of the directly connected peer
 }
 
@@ -150,12 +151,27 @@ func (lr LogicalRequest) HTTPRequest() (*http.Request, error) {
 		fmt.Fprintf(&sb, "%s: %s\r\n", h.Name, h.Value)
 	}
 
-	if len(lr.Body) != 0 {
-		fmt.Fprintf(&sb, "Content-Length: %d\r\n", len(lr.Body))
-	}
+	switch {
+	case lr.Chunked:
+		sb.WriteString("Transfer-Encoding: chunked\r\n\r\n")
 
-	sb.WriteString("\r\n")
-	sb.Write(lr.Body)
+		for rest := lr.Body; len(rest) != 0; {
+			n := min(len(rest), 1000)
+			fmt.Fprintf(&sb, "%x\r\n", n)
+			sb.Write(rest[:n])
+			sb.WriteString("\r\n")
+			rest = rest[n:]
+		}
+
+		sb.WriteString("0\r\n\r\n")
+	default:
+		if len(lr.Body) != 0 {
+			fmt.Fprintf(&sb, "Content-Length: %d\r\n", len(lr.Body))
+		}
+
+		sb.WriteString("\r\n")
+		sb.Write(lr.Body)
+	}
 
 	req, err := http.ReadRequest(bufioReader(sb.String()))
 	if err != nil {
